@@ -732,6 +732,48 @@ func checkC10(c *Ctx, r *Report) {
 			p0.i++
 			undrained := len(walkFrom(p0, isDrain, func(in ssa.Instruction) bool { return in == ssa.Instruction(read) }, nil)) > 0
 			r.Check(!undrained, "C10.R8", fnKey(g)+": the request body is consumed before the next request is read", c.InstrPos(handle), "every path from handleHTTP back to http.ReadRequest passes io.Copy(io.Discard, req.Body)", "the tunnel loop reads the next request without having consumed the rest of the current request's body: a body the handler did not read (cache hit, coalesced follower) is parsed as the next request and answered — the client's real next request gets that answer")
+			// (c) a request that cannot be parsed is answered (400) before the tunnel is given up, as on a plain connection:
+			// from the err != nil edge of ReadRequest every way out passes a WriteError, except where the error is io.EOF
+			if rerr := extractOf(read, 1); rerr != nil {
+				unanswered := false
+				for _, t := range nilTestsOn(g, rerr) {
+					nonNil := t.blk.Succs[1-t.nilIdx]
+					isWrite := func(in ssa.Instruction) bool {
+						x, ok := in.(*ssa.Call)
+						if !ok {
+							return false
+						}
+						n := calleeName(x)
+						return strings.HasSuffix(n, "RawHTTPResponder).WriteError") || strings.HasSuffix(n, "responder.Responder).WriteError")
+					}
+					// skip the side on which the error is EOF (the client simply went away)
+					skipEOF := func(b *ssa.BasicBlock, si int) bool {
+						iff, ok := b.Instrs[len(b.Instrs)-1].(*ssa.If)
+						if !ok {
+							return false
+						}
+						cv, positive := stripNot(iff.Cond)
+						call, ok := cv.(*ssa.Call)
+						if !ok || calleeName(call) != "errors.Is" {
+							return false
+						}
+						if u, ok := call.Call.Args[1].(*ssa.UnOp); ok {
+							if gl, ok := u.X.(*ssa.Global); ok && (gl.Name() == "EOF" || gl.Name() == "ErrUnexpectedEOF") {
+								return (si == 0) == positive
+							}
+						}
+						return false
+					}
+					exits := walkFrom(pos{nonNil, 0}, isWrite, func(in ssa.Instruction) bool {
+						_, isRet := in.(*ssa.Return)
+						return isRet
+					}, skipEOF)
+					if len(exits) > 0 {
+						unanswered = true
+					}
+				}
+				r.Check(!unanswered, "C10.R8", fnKey(g)+": an unparseable request on the tunnel is answered before the tunnel closes", c.InstrPos(read), "the non-EOF error edge of http.ReadRequest passes WriteError", "a malformed request inside a CONNECT tunnel (`GET index.html HTTP/1.1`, a header line without a colon, two Content-Length headers) makes the loop close the connection without any response; the same bytes on a plain connection get 400 Bad Request")
+			}
 			// (b) the error edge of the exchange does not lead back to ReadRequest
 			errBack := false
 			if errv := ssa.Value(handle); errv != nil {
